@@ -1287,7 +1287,12 @@ func (r *Resolver) getTrigger(id uint64) (*trigger, bool) {
 
 // markTriggerInitialized marks a trigger as initialized and reports it.
 func (r *Resolver) markTriggerInitialized(triggerID uint64) {
-	trig, ok := r.getTrigger(triggerID)
+	// Under r.mu, like every other change of the trigger count: the removal paths read initialized
+	// and decrement under this lock. Marking a trigger that was detached after an unlocked lookup
+	// would increment the count with no decrement ever following.
+	r.mu.Lock()
+	defer r.mu.Unlock()
+	trig, ok := r.triggers[triggerID]
 	if !ok {
 		return
 	}
